@@ -73,6 +73,14 @@ type vfStMapStrAny struct {
 	Z int
 }
 
+// struct{F struct{F int; Z int}; Z int} is materialised with its first field EMBEDDED (an exported alias name makes the embedded
+// field exported): an embedded exported struct is an exported field like any other and must survive the round trip
+type VfStIntE = vfStInt
+type vfSteInt struct {
+	VfStIntE
+	Z int
+}
+
 func init() {
 	_ = GenericRegister[vfNamed]("vf_named")
 	_ = GenericRegister[vfNamedInt]("vf_named_int")
@@ -85,6 +93,7 @@ func init() {
 	_ = GenericRegister[vfStSliceInt]("vf_st_sliceint")
 	_ = GenericRegister[vfStPSliceInt]("vf_st_psliceint")
 	_ = GenericRegister[vfStMapStrAny]("vf_st_mapstrany")
+	_ = GenericRegister[vfSteInt]("vf_ste_int")
 }
 
 // "stc T": types with the field name F of the corresponding registered struct{F T; Z int}; their registration is ATTEMPTED under
@@ -116,7 +125,7 @@ var vfStructOfField = map[reflect.Type]reflect.Type{}   // struct type -> field 
 
 func init() {
 	for _, st := range []reflect.Type{reflect.TypeOf(vfStInt{}), reflect.TypeOf(vfStAny{}), reflect.TypeOf(vfStPInt{}),
-		reflect.TypeOf(vfStPPInt{}), reflect.TypeOf(vfStSliceInt{}), reflect.TypeOf(vfStPSliceInt{}), reflect.TypeOf(vfStMapStrAny{})} {
+		reflect.TypeOf(vfStPPInt{}), reflect.TypeOf(vfStSliceInt{}), reflect.TypeOf(vfStPSliceInt{}), reflect.TypeOf(vfStMapStrAny{}), reflect.TypeOf(vfSteInt{})} {
 		vfDeclaredStructs[st.Field(0).Type] = st
 		vfStructOfField[st] = st.Field(0).Type
 	}
